@@ -73,6 +73,36 @@ Example C05_witness :
   = [[([(12,0);(13,0);(10,1)], true, [11])]].
 Proof. vm_compute. reflexivity. Qed.
 
+(* Schedules: a REQ, a timeout scan, a deferred scan or a put by the topic pump in progress
+   when Channel.exit closes the channel (F16 and its siblings).  For ANY number of them and ANY
+   interleaving with the close - its statements as the CURRENT source has them - the message
+   being moved is among what the close writes to disk. *)
+From NSQV Require model.Handoff proofs.HandoffProofs proofs.HandoffSrc proofs.HandoffCompose.
+Theorem C05_moves_vs_close_every_schedule : forall ks sched,
+  forallb HandoffProofs.locked ks = true -> forall m,
+  let st := Handoff.run (Handoff.init ks HandoffCompose.src_channel_close) sched in
+  In m (Handoff.movers st) -> Handoff.lost st m = false /\ Handoff.missed st = false.
+Proof. exact HandoffCompose.channel_close_loses_no_handoff. Qed.
+Print Assumptions C05_moves_vs_close_every_schedule.
+
+Theorem C05_movers_follow_the_protocol :
+  HandoffSrc.channel_mover CoreShape.shape_Channel_RequeueMessage = true /\
+  HandoffSrc.channel_mover CoreShape.shape_Channel_processInFlightQueue = true /\
+  HandoffSrc.channel_mover CoreShape.shape_Channel_processDeferredQueue = true /\
+  HandoffSrc.channel_mover CoreShape.shape_Channel_PutMessage = true.
+Proof. exact HandoffSrc.src_channel_movers_locked. Qed.
+Print Assumptions C05_movers_follow_the_protocol.
+
+(* known finding K3, as a theorem: the consumer pump's hand-off (receive from the queue, then
+   StartInFlightTimeout) is outside the protocol in the current source, and a mover outside the
+   protocol loses its message under this schedule *)
+Theorem C05_consumer_pump_outside_protocol_refuted :
+  HandoffSrc.channel_mover CoreShape.shape_Channel_StartInFlightTimeout = false /\
+  exists sched m, In m (Handoff.movers (Handoff.run (Handoff.init [Handoff.Bare] (Handoff.channel_exit_prog Handoff.WMode)) sched))
+                  /\ Handoff.lost (Handoff.run (Handoff.init [Handoff.Bare] (Handoff.channel_exit_prog Handoff.WMode)) sched) m = true.
+Proof. split; [exact HandoffSrc.src_consumer_pump_bare|exact HandoffProofs.bare_mover_refuted]. Qed.
+Print Assumptions C05_consumer_pump_outside_protocol_refuted.
+
 (* The model is tied to the CURRENT source: the order-of-effects facts about nsqd's core
    functions that the model assumes (proofs/CoreSrcDefs.v) hold of the statement skeletons
    regenerated from /repo on this run (gen/CoreShape.v). *)
